@@ -27,7 +27,7 @@ RULE = ('cases = histories of 2..30 decodes in ONE process mixing well-formed, d
         'inspected after every step; plus -a vs per-file -f and -a vs -a -r; non-trivial = a step preceded by a failing or plugin-raising '
         'decode; distinct by (history prefix, bytes)')
 UD_FIX = {'x1111': ('echo',), 'x2222': ('raises', 'boom'), 'x3333': ('none',), 'x7777': ('raises_import', 'No module named frobnicate'), 'x8888': ('import_raises', 'load failure'), 'o1234': ('echo',)}
-SRC_FIX = {'xsrc': ('echo',), 'o8d00': ('echo',), 'oab00': ('raises',)}
+SRC_FIX = {'xsrc': ('echo',), 'o8d00': ('echo',), 'oab00': ('raises_import',)}
 CO_FIX = {'x': ('table_raise', {'PROC0001': ['line one'], 'PROC0002': ['second']}, 'PROCBAD!')}
 # message registry: the message of an SRC is built from that SRC's own hex words (two PELs with the same reason code and
 # different words must not see each other's words); the third entry has too few argument sources and rejects the PEL
